@@ -192,4 +192,121 @@ theorem mem_nexthopOf (caps : List Cap) (t : Triple) : t ∈ nexthopOf caps ↔ 
     exact ⟨_, hc, h⟩
   · rintro ⟨es, hc, h⟩; exact ⟨_, hc, by simpa using h⟩
 
+/-! ### ADD-PATH: entries accumulate over all ADD-PATH capabilities, a later entry of a family overrides -/
+
+def srFold (f : Family) (init : Nat) (es : List Triple) : Nat :=
+  es.foldl (fun acc e => if (e.1, e.2.1) = f then e.2.2 else acc) init
+
+theorem srOf_eq (caps : List Cap) (f : Family) : srOf caps f = srFold f 0 (addpathEntries caps) := rfl
+
+theorem lookup_foldl_insertEntry (f : Family) (es : List Triple) (d : AList Family Nat) :
+    (AList.lookup f (es.foldl insertEntry d)).getD 0 = srFold f ((AList.lookup f d).getD 0) es := by
+  induction es generalizing d with
+  | nil => rfl
+  | cons e t ih =>
+    simp only [List.foldl_cons, srFold] at *
+    rw [ih]
+    congr 1
+    simp only [insertEntry, AList.lookup_insert]
+    by_cases h : f = (e.1, e.2.1)
+    · simp [h]
+    · have h' : ¬ (e.1, e.2.1) = f := fun x => h x.symm
+      simp [h, h']
+
+def stepAp (acc : Option (AList Family Nat)) (c : Cap) : Option (AList Family Nat) :=
+  match c with
+  | .addpath es => some (es.foldl insertEntry (acc.getD []))
+  | _ => acc
+
+theorem addpathEntries_cons (c : Cap) (t : List Cap) :
+    addpathEntries (c :: t) = (match c with | .addpath es => es | _ => []) ++ addpathEntries t := by
+  cases c <;> simp [addpathEntries, List.flatMap_cons]
+
+theorem lookup_foldl_stepAp (f : Family) (caps : List Cap) (acc : Option (AList Family Nat)) :
+    (AList.lookup f ((caps.foldl stepAp acc).getD [])).getD 0
+      = srFold f ((AList.lookup f (acc.getD [])).getD 0) (addpathEntries caps) := by
+  induction caps generalizing acc with
+  | nil => simp [addpathEntries, srFold]
+  | cons c t ih =>
+    simp only [List.foldl_cons, ih, addpathEntries_cons]
+    cases c <;> simp [stepAp, srFold, List.foldl_append]
+    rename_i es
+    have := lookup_foldl_insertEntry f es (acc.getD [])
+    simp only [srFold] at this
+    rw [this]
+
+theorem capSet_addpath_eq (caps : List Cap) : (capSet caps).addpath = caps.foldl stepAp none := by
+  have := foldl_add_proj (·.addpath) stepAp
+    (by intro s c; cases c <;> simp [CapSet.add, stepAp] <;> (rename_i b _; cases b <;> simp)) caps {}
+  simp only [capSet, this]
+
+/-- The Send/Receive octet the dict holds for a family = the last entry for that family over all
+    ADD-PATH capabilities received (0 when there is none). -/
+theorem capSet_addpath_sr (caps : List Cap) (f : Family) :
+    (AList.lookup f ((capSet caps).addpath.getD [])).getD 0 = srOf caps f := by
+  rw [capSet_addpath_eq, lookup_foldl_stepAp, srOf_eq]; simp
+
+theorem foldl_stepAp_none (caps : List Cap) (acc : Option (AList Family Nat)) :
+    caps.foldl stepAp acc = none ↔ acc = none ∧ ∀ es, Cap.addpath es ∉ caps := by
+  induction caps generalizing acc with
+  | nil => simp
+  | cons c t ih =>
+    simp only [List.foldl_cons, ih]
+    cases c <;> simp [stepAp]
+    rename_i es
+    intro _; exact ⟨es, fun h => absurd rfl h⟩
+
+/-- ADD-PATH is present in the dict iff some ADD-PATH capability was received. -/
+theorem capSet_addpath_none (caps : List Cap) : (capSet caps).addpath = none ↔ ∀ es, Cap.addpath es ∉ caps := by
+  rw [capSet_addpath_eq, foldl_stepAp_none]; simp
+
+theorem lookup_none_of_not_mem_keys {β : Type} (k : Family) (l : AList Family β) (h : k ∉ AList.keys l) :
+    AList.lookup k l = none := by
+  induction l with
+  | nil => rfl
+  | cons hd t ih =>
+    obtain ⟨k₁, v₁⟩ := hd
+    simp only [AList.keys, List.map_cons, List.mem_cons, not_or] at h
+    have hk : ¬ k₁ = k := fun e => h.1 e.symm
+    simp only [AList.lookup, hk, if_false]
+    exact ih h.2
+
+theorem lookup_map_self {β : Type} (g : Family → β) (keys : List Family) (f : Family) :
+    AList.lookup f (keys.map (fun k => (k, g k))) = if f ∈ keys then some (g f) else none := by
+  induction keys with
+  | nil => simp
+  | cons k t ih =>
+    simp only [List.map_cons, AList.lookup, ih, List.mem_cons]
+    by_cases h : k = f
+    · subst h; simp
+    · have h' : ¬ f = k := fun e => h e.symm
+      simp [h, h']
+
+theorem sendBit_zero : sendBit 0 = false := by decide
+theorem recvBit_zero : recvBit 0 = false := by decide
+
+/-- `RequirePath.setup`: whatever the key order of the two dicts, `send(f)` is "we send and they
+    receive" on the octets in force, and `receive(f)` its dual. -/
+theorem negotiateSets_send (a b c d : Nat) (s r : CapSet) (f : Family) :
+    (negotiateSets a b c d s r).send f
+      = (sendBit ((AList.lookup f (s.addpath.getD [])).getD 0) && recvBit ((AList.lookup f (r.addpath.getD [])).getD 0)) := by
+  simp only [Negotiated.send, negotiateSets, lookup_map_self]
+  split
+  · simp
+  · rename_i h
+    simp only [List.mem_append, List.mem_filter, not_or] at h
+    have h1 := lookup_none_of_not_mem_keys f _ h.1
+    simp [h1, sendBit_zero]
+
+theorem negotiateSets_receive (a b c d : Nat) (s r : CapSet) (f : Family) :
+    (negotiateSets a b c d s r).receive f
+      = (recvBit ((AList.lookup f (s.addpath.getD [])).getD 0) && sendBit ((AList.lookup f (r.addpath.getD [])).getD 0)) := by
+  simp only [Negotiated.receive, negotiateSets, lookup_map_self]
+  split
+  · simp
+  · rename_i h
+    simp only [List.mem_append, List.mem_filter, not_or] at h
+    have h1 := lookup_none_of_not_mem_keys f _ h.1
+    simp [h1, recvBit_zero]
+
 end Exa.Open
